@@ -139,10 +139,15 @@ func addLeaf(t Tree, r *Route, s *Segment, h Handler) (Leaf, error) {
 				return nil, errors.Wrap(err, "add optional leaf to grandparent")
 			}
 		} else {
-			_, err = addLeaf(parent, r, parent.getSegment(), h)
+			// The optional segment is the only segment of the route (e.g. "/?name"), the
+			// root tree has no segment and the short form is the root path "/".
+			_, err = addLeaf(parent, r, &Segment{Pos: s.Pos, Slash: "/"}, h)
 			if err != nil {
 				return nil, errors.Wrap(err, "add optional leaf to parent")
 			}
+
+			// The leaf above is added to the same tree, re-read the updated list.
+			leaves = t.getLeaves()
 		}
 	}
 
